@@ -539,9 +539,27 @@ def gen_misc(rng, count=24):
     that get one common downstream at once."""
     out = []
     for i in range(count):
-        kind = i % 4
+        kind = i % 6
         H = rng.choice([24, 32])
-        if kind == 0:
+        if kind == 5:
+            # one part worth 10^9 and then parts worth 1: every change counts, however small against the total
+            big = rng.choice([1000000000, 1000000000, -1000000000])
+            devs = [src(2, 1, pval=big), src(rng.choice([3, 4]), rng.choice([3, 5]), pval=rng.choice([1, 1, -1])),
+                    dev(rng.choice(['handler', 'processor', 'buffer']), [1, 2], cyc=1, cap=3, vadd=rng.choice([0, 1])),
+                    dev('sink', [3], cyc=0)]
+            cfg = dict(devs=devs, horizon=H)
+            fam = 'big-values'
+        elif kind == 4:
+            # a machine stopped and restored in mid-cycle finishes late; its neighbour has become idle meanwhile and has
+            # been idle longer when the next part arrives
+            sc = rng.choice([6, 6, 7])
+            devs = [src(sc, rng.choice([4, 6, -1]), pval=1), dev('processor', [1], cyc=rng.choice([7, 8])),
+                    dev(rng.choice(['processor', 'handler']), [1], cyc=rng.choice([1, 2])), dev('sink', [2, 3], cyc=0)]
+            t = sc + rng.choice([1, 2])
+            cfg = dict(devs=devs, script=[dict(t=t, call='shutdown', dev=2), dict(t=t + 3, call='restore', dev=2, prio=rng.choice([20, 90]))],
+                       horizon=H + 8)
+            fam = 'idle-longest'
+        elif kind == 0:
             devs = [src(1, rng.choice([3, 5, -1]), pval=rng.choice([1, 2])), dev('processor', [1], cyc=rng.choice([5, 6, 8])),
                     dev('sink', [2], cyc=0)]
             script = [dict(t=t, prio=rng.choice([20, 115]), call='partnoise', dev=1, arg=rng.choice([1, 2, 3, -1]))
@@ -867,7 +885,7 @@ def quick_family(seed, scale=1.0):
     out += gen_groups(rng, max(4, int(60 * scale)))
     out += [add_faults(rng, c, rng.choice([1, 2, 3])) for c in gen_gates(rng, max(4, int(40 * scale))) + gen_batch(rng, max(4, int(40 * scale)))]
     out += gen_cbm(rng, max(24, int(40 * scale)))
-    out += gen_misc(rng, max(24, int(32 * scale)))
+    out += gen_misc(rng, max(36, int(48 * scale)))
     # split runs: a third of the configurations is also run in two or three consecutive runs
     for c in list(out):
         if rng.random() < 0.2 and not c['splits']:
